@@ -118,8 +118,8 @@ def dates(start, n):
     from ibicus.utils import create_array_of_consecutive_dates
     return create_array_of_consecutive_dates(n, np.datetime64(start))
 
-def impl_probe_check(start_f, n_f, start_o, n_o, start_h, n_h, L, S):
-    d = probe_debiaser(L, S)
+def impl_probe_check(start_f, n_f, start_o, n_o, start_h, n_h, L, S, d=None):
+    d = d if d is not None else probe_debiaser(L, S)
     f = np.arange(n_f, dtype=float)
     with warnings.catch_warnings():
         warnings.simplefilter("ignore")
@@ -314,6 +314,28 @@ def search(res, tier, seed, deep=False):
                    dict(kind="probe", start_future=str(start_f), n_future=n_f, start_obs=str(start_o), n_obs=n_o,
                         start_cm_hist=str(start_h), n_cm_hist=n_h, L=L, S=S), det,
                    "probe debiaser (apply_on_window = cm_future+1) through apply_location: output is not cm_future+1 at every time step")
+    # D. the same debiaser instance applied to a sequence of series of different lengths and start dates
+    #    (a short trial period, then the full period, ...): every call on its own terms
+    for i in range(6 if not thorough else 40):
+        L, S = gen_LS(r, 45)
+        d = probe_debiaser(L, S)
+        seq = []
+        for k in range(3):
+            start_f = datetime.date(r.randint(1990, 2060), r.choice([1, 1, r.randint(1, 12)]), r.choice([1, r.randint(1, 28)]))
+            n_f = [r.randint(200, 400), r.randint(700, 1500), r.randint(30, 700)][k]
+            start_o = datetime.date(r.randint(1960, 1990), 1, 1); n_o = [r.randint(366, 500), r.randint(800, 1100), r.randint(366, 1100)][k]
+            seq.append((start_f, n_f, start_o, n_o, start_o, n_o))
+        for k, a in enumerate(seq):
+            try:
+                bad, det = impl_probe_check(*a, L, S, d=d)
+            except Exception as e:
+                bad, det = "exception:" + type(e).__name__, dict(error=repr(e)[:300])
+            res.case(("D", k))
+            if bad:
+                report("RunningWindowDebiaser.apply_location", bad + ":reused-instance",
+                       dict(kind="probe-sequence", call=k, sequence=[dict(start_future=str(x[0]), n_future=x[1], start_obs=str(x[2]), n_obs=x[3]) for x in seq], L=L, S=S), det,
+                       "the same debiaser applied to several series in turn: a later call does not adjust every time step of its own series")
+                break
     res.components["search"] = dict(day_span_configs=len(grid), note="exactly-once/containment/mask alignment on the implementation's window classes; probe debiaser on NaN-poisoned buffers")
 
 def replay(w):
@@ -325,6 +347,11 @@ def replay(w):
             bad, det = impl_days_check(days, inp["L"], inp["S"])
         elif comp == "RunningWindowOverYears":
             bad, det = impl_years_check(np.array(inp["years"]), inp["L"], inp["S"])
+        elif inp.get("kind") == "probe-sequence":
+            p = lambda s: datetime.date.fromisoformat(s)
+            d = probe_debiaser(inp["L"], inp["S"]); bad = det = None
+            for x in inp["sequence"][: inp["call"] + 1]:
+                bad, det = impl_probe_check(p(x["start_future"]), x["n_future"], p(x["start_obs"]), x["n_obs"], p(x["start_obs"]), x["n_obs"], inp["L"], inp["S"], d=d)
         else:
             p = lambda s: datetime.date.fromisoformat(s)
             bad, det = impl_probe_check(p(inp["start_future"]), inp["n_future"], p(inp["start_obs"]), inp["n_obs"],
